@@ -14,7 +14,7 @@ using namespace IMATH_NAMESPACE;
 using vf::R;
 
 namespace {
-struct Tally { long long n = 0, tr = 0; };
+struct Tally { long long n = 0, tr = 0, static_alias = 0; };
 
 template <class A, class T, int N> void fillp (A& a, int g)
 {
@@ -76,6 +76,26 @@ template <class T> void run (const char* tn, Tally& t)
     square<Matrix22<T>, T, 4> ("Matrix22", tn, t);
     square<Matrix33<T>, T, 9> ("Matrix33", tn, t);
     square<Matrix44<T>, T, 16> ("Matrix44", tn, t);
+    // the static three-argument form with the destination aliasing a source, and x = x * x: the result must be what the
+    // same product gives with an independent destination (an implementation that writes cells of c while it still reads a
+    // or b fails exactly here)
+    for (int g = 0; g < 16; ++g)
+    {
+        typedef Matrix44<T> M;
+        M a, b;
+        fillp<M, T, 16> (a, g);
+        fillp<M, T, 16> (b, g + 5);
+        const M ab = a * b, aa = a * a;
+        { M x = a, y = b; M::multiply (x, y, x); if (!eq<M, T, 16> (x, ab)) R ().fail ("Matrix44::multiply(a,b,c).c-aliases-a", std::string ("T=") + tn + " a=[" + show<M, T, 16> (a) + "] b=[" + show<M, T, 16> (b) + "]", show<M, T, 16> (ab), show<M, T, 16> (x)); }
+        { M x = a, y = b; M::multiply (x, y, y); if (!eq<M, T, 16> (y, ab)) R ().fail ("Matrix44::multiply(a,b,c).c-aliases-b", std::string ("T=") + tn + " a=[" + show<M, T, 16> (a) + "] b=[" + show<M, T, 16> (b) + "]", show<M, T, 16> (ab), show<M, T, 16> (y)); }
+        { M x = a; M::multiply (x, x, x); if (!eq<M, T, 16> (x, aa)) R ().fail ("Matrix44::multiply(a,b,c).a-b-c-all-alias", std::string ("T=") + tn + " a=[" + show<M, T, 16> (a) + "]", show<M, T, 16> (aa), show<M, T, 16> (x)); }
+        { M x = a; x = M::multiply (x, x); if (!eq<M, T, 16> (x, aa)) R ().fail ("Matrix44::multiply(a,b).assigned-to-operand", std::string ("T=") + tn + " a=[" + show<M, T, 16> (a) + "]", show<M, T, 16> (aa), show<M, T, 16> (x)); }
+        { M x = a; x = x * x; if (!eq<M, T, 16> (x, aa)) R ().fail ("Matrix44::operator*.assigned-to-operand", std::string ("T=") + tn + " a=[" + show<M, T, 16> (a) + "]", show<M, T, 16> (aa), show<M, T, 16> (x)); }
+        { Matrix33<T> x; fillp<Matrix33<T>, T, 9> (x, g); const Matrix33<T> c = x, w = c * c; x = x * x; if (!eq<Matrix33<T>, T, 9> (x, w)) R ().fail ("Matrix33::operator*.assigned-to-operand", std::string ("T=") + tn + " a=[" + show<Matrix33<T>, T, 9> (c) + "]", show<Matrix33<T>, T, 9> (w), show<Matrix33<T>, T, 9> (x)); }
+        { Matrix22<T> x; fillp<Matrix22<T>, T, 4> (x, g); const Matrix22<T> c = x, w = c * c; x = x * x; if (!eq<Matrix22<T>, T, 4> (x, w)) R ().fail ("Matrix22::operator*.assigned-to-operand", std::string ("T=") + tn + " a=[" + show<Matrix22<T>, T, 4> (c) + "]", show<Matrix22<T>, T, 4> (w), show<Matrix22<T>, T, 4> (x)); }
+        { Quat<T> x; fillp<Quat<T>, T, 4> (x, g); const Quat<T> c = x, w = c * c; x = x * x; if (!eq<Quat<T>, T, 4> (x, w)) R ().fail ("Quat::operator*.assigned-to-operand", std::string ("T=") + tn + " q=[" + show<Quat<T>, T, 4> (c) + "]", show<Quat<T>, T, 4> (w), show<Quat<T>, T, 4> (x)); }
+        t.n += 8; t.tr += 8; ++t.static_alias;
+    }
     // dst aliasing src in the member forms; affine last column so the homogeneous divide is by exactly 1
     for (int g = 0; g < 16; ++g)
     {
@@ -107,5 +127,6 @@ void c05_alias_stage ()
     run<double> ("double", t);
     R ().add ("states", t.n); R ().add ("evaluations", t.n); R ().add ("transitions", t.tr);
     R ().cls ("alias.compound-product-with-itself-or-dst=src", t.n);
-    R ().stage_done ("q *= q, m *= m (Matrix22/33/44), multVecMatrix/multDirMatrix with dst = src, v *= m vs v * m; 16 signed prime operands each; float and double; exact");
+    R ().cls ("alias.static-multiply-destination-is-a-source", t.static_alias);
+    R ().stage_done ("q *= q, m *= m (Matrix22/33/44), multVecMatrix/multDirMatrix with dst = src, v *= m vs v * m; Matrix44::multiply(a,b,c) with c = a, c = b, a = b = c; x = x * x; 16 signed prime operands each; float and double; exact");
 }
